@@ -110,19 +110,83 @@ class StmtMixin(object):
       return m(node, st, cx)
     return self._with_ghost(m, node, st, cx, ghosts)
 
+  @staticmethod
+  def _stmt_text(node):
+    txt = ast.unparse(node).strip()
+    if isinstance(node, (ast.If, ast.While, ast.For, ast.Try, ast.With)):
+      txt = txt.split('\n')[0].strip()      # compound statements are anchored by their header line ('before' only)
+    return txt
+
+  @staticmethod
+  def _stmt_shape(node):
+    """What identifies a simple statement when its text has been edited: the assigned targets, or the called function."""
+    if isinstance(node, ast.Assign):
+      return ('assign',) + tuple(ast.unparse(t) for t in node.targets)
+    if isinstance(node, ast.AugAssign):
+      return ('augassign', ast.unparse(node.target))
+    if isinstance(node, ast.Expr) and isinstance(node.value, ast.Call):
+      return ('call', ast.unparse(node.value.func))
+    if isinstance(node, ast.Raise) and node.exc is not None:
+      e = node.exc.func if isinstance(node.exc, ast.Call) else node.exc
+      return ('raise', ast.unparse(e))
+    if isinstance(node, ast.Delete):
+      return ('del',) + tuple(ast.unparse(t) for t in node.targets)
+    return None
+
+  def resolve_anchors(self, spec, fnode):
+    """Map each ghost anchor of the sidecar to statements of the function.  An anchor names a statement by its
+    text; when that text is no longer there (the statement was edited), the unique statement of the same shape
+    (same assignment targets / same called function) takes the anchor, so that an edited statement is checked
+    against the contract instead of leaving the unit undecided."""
+    stmts = [n for n in ast.walk(fnode) if isinstance(n, ast.stmt) and n is not fnode and not isinstance(n, ast.FunctionDef)]
+    texts = {}
+    for n in stmts:
+      texts.setdefault(self._stmt_text(n), []).append(n)
+    amap, drift = {}, []
+    exact_nodes = set()
+    pending = []
+    for g in spec.ghost:
+      a = g.get('after', g.get('before')).strip()
+      if a in texts:
+        for n in texts[a]:
+          amap.setdefault(id(n), []).append(g)
+          exact_nodes.add(id(n))
+      else:
+        pending.append((g, a))
+    for g, a in pending:
+      try:
+        an = ast.parse(a).body[0]
+      except SyntaxError:
+        continue
+      shape = self._stmt_shape(an)
+      if shape is None:
+        continue
+      cands = [n for n in stmts if id(n) not in exact_nodes and self._stmt_shape(n) == shape]
+      if len(cands) == 1:
+        amap.setdefault(id(cands[0]), []).append(g)
+        drift.append('%s: anchor %r re-attached to %r (line %d)' % (spec.name, a, self._stmt_text(cands[0]), cands[0].lineno))
+    return amap, drift, set(id(n) for n in stmts)
+
   def ghosts_at(self, cx, node):
-    """Ghost statements the sidecar attaches after this (simple) statement, matched by its
-    unparsed text within the function under contract."""
+    """Ghost statements the sidecar attaches before/after this statement of the function under contract."""
     spec = cx.spec
     if spec is None or not getattr(spec, 'ghost', None) or cx.qual != spec.name:
       return None
     if isinstance(node, (ast.FunctionDef,)):
       return None
-    txt = ast.unparse(node).strip()
-    if isinstance(node, (ast.If, ast.While, ast.For, ast.Try, ast.With)):
-      txt = txt.split('\n')[0].strip()      # compound statements are anchored by their header line ('before' only)
-    hits = [g for g in spec.ghost if g.get('after', g.get('before')).strip() == txt]
-    for g in hits:
+    res = self.anchor_maps.get(spec.name)
+    if res is None:
+      fnode = self.fnode_of.get(spec.name)
+      if fnode is None:
+        return None
+      res = self.anchor_maps[spec.name] = self.resolve_anchors(spec, fnode)
+      self.anchor_drift.extend(res[1])
+    if id(node) in res[2]:
+      hits = res[0].get(id(node))
+    else:     # a statement the engine synthesised (e.g. the element call of a comprehension used as a loop): by text
+      txt = self._stmt_text(node)
+      hits = [g for g in spec.ghost if g.get('after', g.get('before')).strip() == txt]
+    for g in hits or ():
       self.ghost_hits.add((spec.name, g.get('after', g.get('before')).strip()))
     return hits or None
 
@@ -311,6 +375,17 @@ class StmtMixin(object):
           and self.reg.classes[v.ty.name].listlike and len(self.reg.classes[v.ty.name].listlike) == len(t.elts)):
         items = [self.load_field(st, v.t, v.ty.name, f) for f in self.reg.classes[v.ty.name].listlike]
         v = V(Ty('tuple', [i.ty for i in items]), items=items)
+      if isinstance(v, V) and v.ty.k == 'list':
+        # unpacking a list: ValueError unless it has exactly as many items as there are targets
+        n = self.list_len(st, v)
+        for s0, e in self.oblige_or_raise(st, cx, n == len(t.elts), 'ValueError', t, 'unpack of a list with exactly %d items' % len(t.elts)):
+          if isinstance(e, Exc):
+            yield s0, e
+            continue
+          items = [self.list_get(s0, v, z3.IntVal(i)) for i in range(len(t.elts))]
+          for o in self.assign_to(t, V(Ty('tuple', [i.ty for i in items]), items=items), s0, cx):
+            yield o
+        return
       if not (isinstance(v, V) and v.ty.k == 'tuple' and len(v.items) == len(t.elts)):
         raise Unsupported('unpacking %r into %d targets (line %d)' % (v, len(t.elts), t.lineno))
       if v.none is not None and not self.spec_depth:
@@ -606,6 +681,7 @@ class StmtMixin(object):
         nb[key] = dict(bf, data=[('raw', sym, ln)], rpos=0, reading=True)
       st.bufs = nb
     head_heap = dict(st.heap)
+    head_heap['$alloc'] = st.alloc      # objects one iteration creates are outside the loop's frame
     modkeys = self.keys_of_patterns(mods)
     for e in ls.get('invariant', ()):
       t = self.parse_spec(e)
